@@ -25,8 +25,14 @@ func C14Configs(p *spec.Program) []spec.Config {
 		"Sink.Status.Str": {"UsePathValidator()"}, "Leaf.Str": {"UseTypeValidator()", "UseSimValidator()"}}
 	b.PlanModifiers = map[string][]string{"Sink.Spec.Name": {"PathModifier()"}, "Mid.Name": {"TypeModifier()"}, "Leaf.Num": {"TypeModifier()"}, "Sink.Status.Num": {"PathModifier()"}}
 	b.NameOverrides = map[string]string{"Naming.Overridden": "renamed", "Leaf.Flag": "flag_x", "Sink.Status.Flag": "flag_by_path", "Sink.Spec.Name": "name_by_path", "Mid.Name": "name_by_type"}
-	b.CustomTypes = map[string]string{"Sink.Ratio": "CustomRatio", "Scalars.FBool": "CustomBool"}
-	b.Suffixes = map[string]string{"CustomRatio": "Ratio", "CustomBool": "BoolSpecial"}
+	b.CustomTypes = map[string]string{"Sink.Ratio": "CustomRatio", "Scalars.FBool": "CustomBool",
+		"Sink.On": "example.com/x/wrappers.Traits", "Sink.Status.Str": "example.com/x/wrappers.ByPath", "Leaf.Str": "example.com/x/wrappers.ByType"}
+	// no exact key for the qualified types: shorter, overlapping keys must not be picked by iteration order
+	b.Suffixes = map[string]string{"CustomRatio": "Ratio", "CustomBool": "BoolSpecial", "Traits": "AnyTraits", "wrappers.Traits": "WrappersTraits",
+		"x/wrappers.Traits": "XWrappersTraits", "ByPath": "P", "wrappers.ByPath": "WP"}
+	b.ImportPathOverrides["example.com/api"] = "example.com/moved"
+	b.ImportPathOverrides["types"] = "example.com/short/types"
+	b.ImportPathOverrides["example.com/x/wrappers"] = "example.com/y/wrappers"
 	return []spec.Config{a, b}
 }
 
@@ -83,6 +89,12 @@ func C14ConfigsFor(p *spec.Program) []spec.Config {
 		case 3:
 			b.SchemaTypes[o] = spec.SchemaType{Type: "SimStrType", ValueType: "SimStrValue", CastToType: "string", CastFromType: "string"}
 		}
+	}
+	if pathKey != "" {
+		b.CustomTypes = map[string]string{pathKey: "example.com/x/wrappers.ByPath", typeKey: "example.com/x/wrappers.ByType"}
+		b.Suffixes = map[string]string{"ByPath": "P", "wrappers.ByPath": "WP", "x/wrappers.ByPath": "XWP", "ByType": "T", "wrappers.ByType": "WT"}
+		b.ImportPathOverrides["example.com/x/wrappers"] = "example.com/y/wrappers"
+		b.ImportPathOverrides["example.com/api"] = "example.com/moved"
 	}
 	if len(b.Types) > 1 {
 		if b.InjectedFields == nil {
